@@ -56,6 +56,8 @@ pub fn lists_and_ss() -> Vec<(Unifiable, SS)> {
     v.push((mk_list(&[atom("a")], Some(var(1, "$T"))), mk(&[(1, mk_list(&[atom("b"), atom("c")], None))])));
     v.push((mk_list(&[atom("a")], Some(var(1, "$T"))), mk(&[(1, empty())])));
     v.push((mk_list(&[atom("a")], Some(var(1, "$T"))), mk(&[(1, var(2, "$U")), (2, mk_list(&[atom("b")], Some(var(4, "$W")))), (4, mk_list(&[mk_list(&[atom("z")], None)], None))])));
+    // two levels of bound tails: [a | $T1], $T1 = [b, c | $T2], $T2 = [d, e]
+    v.push((mk_list(&[atom("a")], Some(var(1, "$T1"))), mk(&[(1, mk_list(&[atom("b"), atom("c")], Some(var(2, "$T2")))), (2, mk_list(&[atom("d"), atom("e")], None))])));
     // variable bound to a list
     v.push((var(1, "$L"), mk(&[(1, mk_list(&[atom("a"), atom("b")], None))])));
     v.push((var(3, "$V"), mk(&[(3, SInteger(1))])));
